@@ -1106,9 +1106,10 @@ Example ex_crisscross :
   /\ inconsistent (mkCfg true true) h = 0.
 Proof. vm_compute. repeat split. Qed.
 
-(* revert after merge and take-other: 1 changes file 4, 2 changes file 3; 3 = merge(1,2) reverts file 3 to
-   the left side (new version with parent [2]? no: the left version 0 is dominated by 2, content differs from 2:
-   new version, parent 2); 4 = merge(1,2) takes 2's file 3 (carried over: last changed 2) *)
+(* revert after merge and take-other: 1 changes file 4, 2 changes file 3.  3 = merge(1,2) reverts file 3 to
+   the left side's content: the versions in the parents are [0; 2] with the one head 2, the content differs from
+   2's, so a new version with parent [2] is recorded.  4 = merge(1,2) takes 2's file 3: carried over (last
+   changed 2, no text).  File 4 is unchanged against the left parent and older in the other: stays at 1. *)
 Definition revert_ops : list op :=
   [ ([], [ROOT; FILE 3 0; FILE 4 0]); ([0], [ROOT; FILE 3 0; FILE 4 1]); ([0], [ROOT; FILE 3 2; FILE 4 0]);
     ([1; 2], [ROOT; FILE 3 0; FILE 4 1]); ([1; 2], [ROOT; FILE 3 2; FILE 4 1]) ].
